@@ -32,11 +32,16 @@ for p in patches:
         print("%-28s APPLY FAILED %s" % (name, r.stderr.strip()[:200])); continue
     fired = []
     try:
-        for i in ids:
-            rr = subprocess.run([os.path.join(VERIF, "check"), i], capture_output=True, text=True)
-            if rr.returncode != 0:
-                lines = [l for l in rr.stdout.splitlines() if l.strip().startswith("FAIL")]
-                fired.append((i, rr.returncode, lines[:3]))
+        import concurrent.futures as cf
+        subprocess.run([sys.executable, os.path.join(VERIF, "engine", "extract.py")], capture_output=True, text=True)   # one shared extraction
+
+        def one(i):
+            return i, subprocess.run([os.path.join(VERIF, "check"), i], capture_output=True, text=True)
+        with cf.ThreadPoolExecutor(max_workers=10) as ex:
+            for i, rr in ex.map(one, ids):
+                if rr.returncode != 0:
+                    lines = [l for l in rr.stdout.splitlines() if l.strip().startswith("FAIL")]
+                    fired.append((i, rr.returncode, lines[:3], sorted({l.strip().split()[1] for l in lines if len(l.split()) > 1})))
     finally:
         subprocess.run(["git", "-C", "/repo", "checkout", "--", "."], check=True)
     res[name] = fired
@@ -44,8 +49,8 @@ for p in patches:
         dp = os.path.join(VERIF, "seeded", "DETECTION.json")
         det = json.load(open(dp)) if os.path.exists(dp) else {}
         if len(ids) >= 19:
-            det[os.path.basename(os.path.dirname(p))] = [i for i, rc, _ in fired if rc == 1]
+            det[os.path.basename(os.path.dirname(p))] = {i: rules for i, rc, _, rules in fired if rc == 1}
             json.dump(det, open(dp, "w"), indent=1, sort_keys=True)
-    print("%-28s %s" % (name, "DETECTED by " + ",".join("%s(rc%d)" % (i, rc) for i, rc, _ in fired) if fired else "MISSED"))
-    for i, rc, lines in fired:
+    print("%-28s %s" % (name, "DETECTED by " + ",".join("%s(rc%d)" % (i, rc) for i, rc, _, _r in fired) if fired else "MISSED"))
+    for i, rc, lines, _r in fired:
         for l in lines: print("        %s %s" % (i, l.strip()[:260]))
